@@ -1,4 +1,320 @@
 import EmsModel.Core.Polygons
+import EmsModel.Lemmas.Polygons
+import Mathlib.Algebra.Order.Field.Rat
+import Mathlib.Tactic.NormNum
+/-!
+# C06 — cell polygons and dataset extent are faithful to the dataset's coordinates
+
+Property theorems only.  Every statement is for arbitrary grid sizes / face sizes.
+Geometry validity is a parameter `isValid : Poly → Bool` (GEOS in the real code).
+-/
 namespace Ems.C06
-theorem placeholder : True := trivial
+open Ems
+
+/-! ### CF 1-D -/
+
+/-- documented corner order of an axis-aligned cell -/
+theorem rect_corners (x0 x1 y0 y1 : Rat) :
+    rect (x0, x1) (y0, y1) = [(x0, y0), (x1, y0), (x1, y1), (x0, y1)] := rfl
+
+theorem cf1d_length (lonb latb : List (Rat × Rat)) :
+    (cf1dPolys lonb latb).length = latb.length * lonb.length := by
+  unfold cf1dPolys
+  exact flatMap_length_uniform _ lonb.length latb (by intro a _; simp)
+
+/-- Cell `(j, i)` — linear position `j * nx + i` — is exactly the rectangle spanned by the
+`i`-th longitude bounds and the `j`-th latitude bounds. -/
+theorem cf1d_polygon_at (lonb latb : List (Rat × Rat)) (j i : Nat)
+    (hj : j < latb.length) (hi : i < lonb.length) :
+    (cf1dPolys lonb latb)[j * lonb.length + i]? = some (some (rect lonb[i] latb[j])) := by
+  unfold cf1dPolys
+  rw [flatMap_getElem_uniform _ lonb.length latb (by intro a _; simp) j i hj hi]
+  simp [hi]
+
+/-- Without stored bounds there is one bound pair per coordinate value (needs ≥ 2 values). -/
+theorem midBounds_length (vals : List Rat) (h : 2 ≤ vals.length) :
+    ∃ b, midBounds vals = some b ∧ b.length = vals.length := by
+  match vals, h with
+  | v0 :: v1 :: rest, _ =>
+    refine ⟨_, rfl, ?_⟩
+    simp
+
+theorem midBounds_short (vals : List Rat) (h : vals.length < 2) : midBounds vals = none := by
+  match vals, h with
+  | [], _ => rfl
+  | [_], _ => rfl
+
+theorem avg_getElem : ∀ (l : List Rat) (t : Nat), t + 1 < l.length →
+    ((l.zip (l.drop 1)).map (fun p => (p.2 + p.1) / 2))[t]? = some ((l.getD (t + 1) 0 + l.getD t 0) / 2)
+  | [], t, h => by simp at h
+  | [_], t, h => by simp at h
+  | a :: b :: r, 0, _ => by simp
+  | a :: b :: r, t + 1, h => by
+    have ih := avg_getElem (b :: r) t (by simpa using h)
+    simpa using ih
+
+/-- the list of cell edges `mids` that `midBounds` pairs up -/
+def mids (vals : List Rat) : List Rat :=
+  match vals with
+  | v0 :: v1 :: _ =>
+    let n := vals.length
+    let last := vals.getD (n - 1) 0
+    let prev := vals.getD (n - 2) 0
+    [v0 - (v1 - v0) / 2] ++ (vals.zip (vals.drop 1)).map (fun p => (p.2 + p.1) / 2) ++ [last + (last - prev) / 2]
+  | _ => []
+
+theorem midBounds_eq (vals : List Rat) (h : 2 ≤ vals.length) :
+    midBounds vals = some ((mids vals).zip ((mids vals).drop 1)) := by
+  match vals, h with
+  | v0 :: v1 :: rest, _ => rfl
+
+/-- Interior cell edges are the midpoints of neighbouring coordinate values, and each is
+shared by the two neighbouring cells (bounds are contiguous). -/
+theorem midBounds_interior (vals : List Rat) (b : List (Rat × Rat)) (hb : midBounds vals = some b)
+    (k : Nat) (hk0 : 0 < k) (hk : k < vals.length) :
+    (b[k]?).map (·.1) = some ((vals.getD k 0 + vals.getD (k - 1) 0) / 2) ∧
+    (b[k - 1]?).map (·.2) = some ((vals.getD k 0 + vals.getD (k - 1) 0) / 2) := by
+  match vals, hk with
+  | v0 :: v1 :: rest, hk =>
+    simp only [midBounds, Option.some.injEq] at hb
+    subst hb
+    obtain ⟨k', rfl⟩ : ∃ k', k = k' + 1 := ⟨k - 1, by omega⟩
+    simp only [List.length_cons] at hk
+    have hm : ∀ t, t < rest.length + 1 →
+        (([v0 - (v1 - v0) / 2] ++ ((v0 :: v1 :: rest).zip ((v0 :: v1 :: rest).drop 1)).map (fun p => (p.2 + p.1) / 2)
+          ++ [(v0 :: v1 :: rest).getD ((v0 :: v1 :: rest).length - 1) 0 +
+              ((v0 :: v1 :: rest).getD ((v0 :: v1 :: rest).length - 1) 0 - (v0 :: v1 :: rest).getD ((v0 :: v1 :: rest).length - 2) 0) / 2]) : List Rat)[t + 1]?
+        = some (((v0 :: v1 :: rest).getD (t + 1) 0 + (v0 :: v1 :: rest).getD t 0) / 2) := by
+      intro t ht
+      simp only [List.append_assoc, List.singleton_append, List.getElem?_cons_succ]
+      rw [List.getElem?_append_left (by simp; omega)]
+      exact avg_getElem (v0 :: v1 :: rest) t (by simp; omega)
+    have hA := hm k' (by omega)
+    constructor
+    · simp only [List.getElem?_zip_eq_some, Option.map_eq_some_iff]
+      have hnext : ∃ y, (([v0 - (v1 - v0) / 2] ++ ((v0 :: v1 :: rest).zip ((v0 :: v1 :: rest).drop 1)).map (fun p => (p.2 + p.1) / 2)
+          ++ [(v0 :: v1 :: rest).getD ((v0 :: v1 :: rest).length - 1) 0 +
+              ((v0 :: v1 :: rest).getD ((v0 :: v1 :: rest).length - 1) 0 - (v0 :: v1 :: rest).getD ((v0 :: v1 :: rest).length - 2) 0) / 2]) : List Rat)[k' + 2]? = some y := by
+        have : k' + 2 < (([v0 - (v1 - v0) / 2] ++ ((v0 :: v1 :: rest).zip ((v0 :: v1 :: rest).drop 1)).map (fun p => (p.2 + p.1) / 2)
+          ++ [(v0 :: v1 :: rest).getD ((v0 :: v1 :: rest).length - 1) 0 +
+              ((v0 :: v1 :: rest).getD ((v0 :: v1 :: rest).length - 1) 0 - (v0 :: v1 :: rest).getD ((v0 :: v1 :: rest).length - 2) 0) / 2]) : List Rat).length := by
+          simp; omega
+        exact ⟨_, List.getElem?_eq_getElem this⟩
+      obtain ⟨y, hy⟩ := hnext
+      refine ⟨(_, y), ⟨hA, ?_⟩, rfl⟩
+      simpa [List.getElem?_drop, Nat.add_comm] using hy
+    · simp only [Nat.add_sub_cancel, List.getElem?_zip_eq_some, Option.map_eq_some_iff]
+      have hprev : ∃ y, (([v0 - (v1 - v0) / 2] ++ ((v0 :: v1 :: rest).zip ((v0 :: v1 :: rest).drop 1)).map (fun p => (p.2 + p.1) / 2)
+          ++ [(v0 :: v1 :: rest).getD ((v0 :: v1 :: rest).length - 1) 0 +
+              ((v0 :: v1 :: rest).getD ((v0 :: v1 :: rest).length - 1) 0 - (v0 :: v1 :: rest).getD ((v0 :: v1 :: rest).length - 2) 0) / 2]) : List Rat)[k']? = some y :=
+        ⟨_, List.getElem?_eq_getElem (by simp; omega)⟩
+      obtain ⟨y, hy⟩ := hprev
+      refine ⟨(y, _), ⟨hy, ?_⟩, rfl⟩
+      simpa [List.getElem?_drop, Nat.add_comm] using hA
+
+/-- The outer edges extrapolate by half the adjacent gap. -/
+theorem midBounds_outer (v0 v1 : Rat) (rest : List Rat) (b : List (Rat × Rat))
+    (hb : midBounds (v0 :: v1 :: rest) = some b) :
+    (b[0]?).map (·.1) = some (v0 - (v1 - v0) / 2) := by
+  simp only [midBounds, Option.some.injEq] at hb
+  subst hb
+  simp
+
+/-! ### 2-D grids, node grids, meshes -/
+
+/-- CF 2-D / SHOC simple: cell `(j, i)` is the four (stored or derived) corners of that cell
+paired up in stored order; a cell lacking any corner of either coordinate has no polygon. -/
+theorem cf2d_polygon_at (lonb latb : Grid (Option (List Rat))) (nx j i : Nat)
+    (hlen : lonb.length = latb.length)
+    (hx : ∀ r ∈ lonb, r.length = nx) (hy : ∀ r ∈ latb, r.length = nx)
+    (hj : j < lonb.length) (hi : i < nx) :
+    (cf2dPolys lonb latb)[j * nx + i]? =
+      some (match (lonb.get j i).join, (latb.get j i).join with
+        | some xs, some ys => some (xs.zip ys)
+        | _, _ => none) := by
+  unfold cf2dPolys
+  have hrow : ∀ a ∈ lonb.zip latb, ((fun (p : List (Option (List Rat)) × List (Option (List Rat))) =>
+      (p.1.zip p.2).map fun (q : Option (List Rat) × Option (List Rat)) =>
+        match q.1, q.2 with
+        | some xs, some ys => some (xs.zip ys)
+        | _, _ => none) a).length = nx := by
+    intro a ha
+    have := List.of_mem_zip ha
+    simp [hx a.1 this.1, hy a.2 this.2]
+  have hj' : j < (lonb.zip latb).length := by simp [← hlen]; exact hj
+  have key := flatMap_getElem_uniform _ nx (lonb.zip latb) hrow j i hj' hi
+  have hjl : j < latb.length := by omega
+  have hxi : i < (lonb[j]).length := by rw [hx _ (List.getElem_mem hj)]; exact hi
+  have hyi : i < (latb[j]).length := by rw [hy _ (List.getElem_mem hjl)]; exact hi
+  refine key.trans ?_
+  simp only [List.getElem_zip, List.getElem?_map, Grid.get]
+  rw [List.getElem?_eq_getElem hj, List.getElem?_eq_getElem hjl]
+  simp only [Option.bind_some]
+  rw [List.getElem?_eq_getElem (by simp; omega : i < (lonb[j].zip latb[j]).length)]
+  simp [List.getElem?_eq_getElem hxi, List.getElem?_eq_getElem hyi]
+
+/-- Stored bounds: a cell's corners are all four stored values, or nothing if any is missing. -/
+theorem storedCorners_spec (row : List (List (Option Rat))) (i : Nat) (c : List (Option Rat))
+    (hc : row[i]? = some c) :
+    ((row.map allSomeL)[i]?).join = (if none ∈ c then none else allSomeL c) := by
+  simp only [List.getElem?_map, hc, Option.map_some, Option.join_some]
+  split
+  · exact (allSomeL_eq_none c).mpr ‹_›
+  · rfl
+
+/-- Arakawa C / SHOC standard: cell `(j, i)` is built from the nodes
+`(j,i) (j,i+1) (j+1,i+1) (j+1,i)` in that order; any missing node ⇒ no polygon. -/
+theorem arakawa_polygon_at (xg yg : Grid (Option Rat)) (ny nx j i : Nat) (hj : j < ny) (hi : i < nx) :
+    (arakawaPolys xg yg ny nx)[j * nx + i]? =
+      some (allSomeL (
+        let nd (jj ii : Nat) : Option Pt :=
+          match (xg.get jj ii).join, (yg.get jj ii).join with
+          | some x, some y => some (x, y)
+          | _, _ => none
+        [nd j i, nd j (i + 1), nd (j + 1) (i + 1), nd (j + 1) i])) := by
+  unfold arakawaPolys
+  rw [flatMap_getElem_uniform _ nx (List.range ny) (by intro a _; simp) j i (by simpa using hj) hi]
+  simp only [List.getElem_range, List.getElem?_map, List.getElem?_range hi, Option.map_some]
+  rfl
+
+theorem arakawa_length (xg yg : Grid (Option Rat)) (ny nx : Nat) :
+    (arakawaPolys xg yg ny nx).length = ny * nx := by
+  unfold arakawaPolys
+  rw [flatMap_length_uniform _ nx (List.range ny) (by intro a _; simp)]
+  simp
+
+/-- UGRID: face `f`'s polygon is its nodes in listed order, whatever the face size. -/
+theorem ugrid_polygon_at (nodes : List Pt) (faces : List (List Nat)) (f : Nat) (hf : f < faces.length)
+    (hin : ∀ n ∈ faces[f], n < nodes.length) :
+    (ugridPolys nodes faces)[f]? = some (some (faces[f].map fun n => nodes.getD n (0, 0))) := by
+  unfold ugridPolys
+  simp only [List.getElem?_map, List.getElem?_eq_getElem hf, Option.map_some, Option.some.injEq]
+  rw [allSomeL_eq_some]
+  simp only [List.map_map]
+  apply List.map_congr_left
+  intro n hn
+  have := hin n hn
+  simp [List.getD_eq_getElem?_getD, List.getElem?_eq_getElem this]
+
+theorem ugrid_length (nodes : List Pt) (faces : List (List Nat)) :
+    (ugridPolys nodes faces).length = faces.length := by simp [ugridPolys]
+
+/-- a node index outside the node table is never silently clamped: no polygon -/
+theorem ugrid_bad_node (nodes : List Pt) (faces : List (List Nat)) (f : Nat) (hf : f < faces.length)
+    (n : Nat) (hn : n ∈ faces[f]) (hbad : nodes.length ≤ n) :
+    (ugridPolys nodes faces)[f]? = some none := by
+  unfold ugridPolys
+  simp only [List.getElem?_map, List.getElem?_eq_getElem hf, Option.map_some, Option.some.injEq]
+  rw [allSomeL_eq_none]
+  exact List.mem_map.mpr ⟨n, hn, List.getElem?_eq_none hbad⟩
+
+/-! ### missing coordinates, validity, mask -/
+
+/-- A cell with any missing corner has no polygon. -/
+theorem missing_no_polygon {β : Type} (corners : List (Option β)) (h : none ∈ corners) :
+    allSomeL corners = none := (allSomeL_eq_none corners).mpr h
+
+/-- `mask n` says exactly whether cell `n` has a polygon. -/
+theorem mask_iff (polys : List (Option Poly)) (n : Nat) :
+    (polyMask polys)[n]? = some true ↔ ∃ q, polys[n]? = some (some q) := by
+  simp only [polyMask, List.getElem?_map, Option.map_eq_some_iff, Option.isSome_iff_exists]
+  constructor
+  · rintro ⟨p, hp, q, rfl⟩; exact ⟨q, hp⟩
+  · rintro ⟨q, hq⟩; exact ⟨some q, hq, q, rfl⟩
+
+theorem mask_length (polys : List (Option Poly)) : (polyMask polys).length = polys.length := by
+  simp [polyMask]
+
+/-- For every validity predicate: a cell ends up without polygon iff its coordinates were
+missing or its ring is invalid (self-intersecting); a valid cell keeps its polygon unchanged;
+cells never move (holes keep their slot). -/
+theorem invalid_dropped (isValid : Poly → Bool) (raw : List (Option Poly)) (n : Nat) :
+    ((keepValid isValid raw)[n]? = some none ↔
+        raw[n]? = some none ∨ ∃ q, raw[n]? = some (some q) ∧ isValid q = false) ∧
+    (∀ q, (keepValid isValid raw)[n]? = some (some q) ↔ raw[n]? = some (some q) ∧ isValid q = true) := by
+  simp only [keepValid, List.getElem?_map]
+  cases h : raw[n]? with
+  | none => simp
+  | some p =>
+    cases p with
+    | none => simp
+    | some q =>
+      cases hv : isValid q <;> simp [hv]
+
+theorem keepValid_length (isValid : Poly → Bool) (raw : List (Option Poly)) :
+    (keepValid isValid raw).length = raw.length := by simp [keepValid]
+
+/-- A warning is emitted iff some polygon was dropped for invalidity. -/
+theorem warned_iff (isValid : Poly → Bool) (raw : List (Option Poly)) :
+    invalidDropped isValid raw = true ↔ ∃ q, some q ∈ raw ∧ isValid q = false := by
+  simp only [invalidDropped, List.any_eq_true]
+  constructor
+  · rintro ⟨p, hp, h⟩
+    cases p with
+    | none => simp at h
+    | some q => exact ⟨q, hp, by simpa using h⟩
+  · rintro ⟨q, hq, h⟩
+    exact ⟨some q, hq, by simp [h]⟩
+
+/-! ### extent -/
+
+/-- The reported bounds are the bounding box of the vertices: every vertex lies inside, and
+each side is attained by some vertex. -/
+theorem bbox_spec (pts : List Pt) (a b c d : Rat) (h : bbox pts = some (a, b, c, d)) :
+    (∀ p ∈ pts, a ≤ p.1 ∧ p.1 ≤ c ∧ b ≤ p.2 ∧ p.2 ≤ d) ∧
+    (∃ p ∈ pts, p.1 = a) ∧ (∃ p ∈ pts, p.2 = b) ∧ (∃ p ∈ pts, p.1 = c) ∧ (∃ p ∈ pts, p.2 = d) := by
+  cases pts with
+  | nil => simp [bbox] at h
+  | cons p0 ps =>
+    simp only [bbox, Option.some.injEq] at h
+    -- invariant of the fold
+    have inv : ∀ (qs : List Pt) (acc : Rat × Rat × Rat × Rat) (seen : List Pt),
+        (∀ p ∈ seen, acc.1 ≤ p.1 ∧ p.1 ≤ acc.2.2.1 ∧ acc.2.1 ≤ p.2 ∧ p.2 ≤ acc.2.2.2) →
+        ((∃ p ∈ seen, p.1 = acc.1) ∧ (∃ p ∈ seen, p.2 = acc.2.1) ∧ (∃ p ∈ seen, p.1 = acc.2.2.1) ∧ (∃ p ∈ seen, p.2 = acc.2.2.2)) →
+        let r := qs.foldl (fun (b : Rat × Rat × Rat × Rat) q =>
+          (min b.1 q.1, min b.2.1 q.2, max b.2.2.1 q.1, max b.2.2.2 q.2)) acc
+        (∀ p ∈ seen ++ qs, r.1 ≤ p.1 ∧ p.1 ≤ r.2.2.1 ∧ r.2.1 ≤ p.2 ∧ p.2 ≤ r.2.2.2) ∧
+        ((∃ p ∈ seen ++ qs, p.1 = r.1) ∧ (∃ p ∈ seen ++ qs, p.2 = r.2.1) ∧ (∃ p ∈ seen ++ qs, p.1 = r.2.2.1) ∧ (∃ p ∈ seen ++ qs, p.2 = r.2.2.2)) := by
+      intro qs
+      induction qs with
+      | nil => intro acc seen h1 h2; simp only [List.append_nil, List.foldl_nil]; exact ⟨h1, h2⟩
+      | cons q qs ih =>
+        intro acc seen h1 h2
+        have := ih (min acc.1 q.1, min acc.2.1 q.2, max acc.2.2.1 q.1, max acc.2.2.2 q.2) (seen ++ [q])
+          (by
+            intro p hp
+            rcases List.mem_append.mp hp with hp | hp
+            · have := h1 p hp
+              exact ⟨le_trans (min_le_left _ _) this.1, le_trans this.2.1 (le_max_left _ _),
+                le_trans (min_le_left _ _) this.2.2.1, le_trans this.2.2.2 (le_max_left _ _)⟩
+            · simp at hp; subst hp
+              exact ⟨min_le_right _ _, le_max_right _ _, min_le_right _ _, le_max_right _ _⟩)
+          (by
+            obtain ⟨⟨p1, hp1, e1⟩, ⟨p2, hp2, e2⟩, ⟨p3, hp3, e3⟩, ⟨p4, hp4, e4⟩⟩ := h2
+            refine ⟨?_, ?_, ?_, ?_⟩
+            · rcases min_choice acc.1 q.1 with hm | hm
+              · exact ⟨p1, by simp [hp1], by simp [hm, e1]⟩
+              · exact ⟨q, by simp, by simp [hm]⟩
+            · rcases min_choice acc.2.1 q.2 with hm | hm
+              · exact ⟨p2, by simp [hp2], by simp [hm, e2]⟩
+              · exact ⟨q, by simp, by simp [hm]⟩
+            · rcases max_choice acc.2.2.1 q.1 with hm | hm
+              · exact ⟨p3, by simp [hp3], by simp [hm, e3]⟩
+              · exact ⟨q, by simp, by simp [hm]⟩
+            · rcases max_choice acc.2.2.2 q.2 with hm | hm
+              · exact ⟨p4, by simp [hp4], by simp [hm, e4]⟩
+              · exact ⟨q, by simp, by simp [hm]⟩)
+        simpa [List.append_assoc] using this
+    have := inv ps (p0.1, p0.2, p0.1, p0.2) [p0] (by simp) (by simp)
+    simp only [List.singleton_append] at this
+    rw [h] at this
+    exact this
+
+/-! ### non-vacuity -/
+example : cf1dPolys [(0, 1), (1, 3)] [(10, 12)] = [some [(0,10),(1,10),(1,12),(0,12)], some [(1,10),(3,10),(3,12),(1,12)]] := by decide
+example : midBounds [0, 2, 6] = some [(-1, 1), (1, 4), (4, 8)] := by norm_num [midBounds]
+example : arakawaPolys [[some 0, some 2], [some 0, none]] [[some 0, some 0], [some 2, some 2]] 1 1 = [none] := by decide
+example : ugridPolys [(0,0),(2,0),(2,2)] [[2,0,1]] = [some [(2,2),(0,0),(2,0)]] := by decide
+example : bbox [(0,3),(2,-1)] = some (0, -1, 2, 3) := by decide
+
 end Ems.C06
